@@ -42,7 +42,7 @@ _KEYS_CACHE = {}
 
 def owned_keys(nodes, per=2):
     """keys whose original owner (under the library's own default hasher on the full set) is each node"""
-    t = tuple(nodes)
+    t = (tuple(nodes), per)
     if t not in _KEYS_CACHE:
         from pymemcache.client.rendezvous import RendezvousHash
         h = RendezvousHash()
@@ -51,7 +51,7 @@ def owned_keys(nodes, per=2):
         out = {n: [] for n in nodes}
         i = 0
         while any(len(v) < per for v in out.values()):
-            k = "key%d" % i
+            k = ("key%d" if per <= 2 else "bulk%d") % i
             i += 1
             o = h.get_node(k)
             if len(out[o]) < per:
@@ -194,6 +194,7 @@ class Sim:
         self.callno += 1
         call = self.callno
         net = self.net
+        healthy_before = {n for n, s_ in self.servers.items() if s_.health == "up"}
         marks = {n: len(s.cmdlog) for n, s in self.servers.items()}
         c0 = len(net.contacts)
         r0 = len(net.raised)
@@ -225,6 +226,11 @@ class Sim:
                 ret = hc.touch(key, 0)
             elif name == "get_many":
                 ret = hc.get_many(allkeys)
+            elif name == "get_many_big":
+                # a thousand and more keys of one server in one call (a client that slices large per-server batches must still
+                # treat the server's failure once)
+                big = owned_keys(self.names, per=1100)[S][:1100]
+                ret = hc.get_many(list(dict.fromkeys(big + allkeys)))
             elif name == "set_many":
                 ret = hc.set_many({k: uniq for k in allkeys})
             elif name == "delete_many":
@@ -360,7 +366,7 @@ class Sim:
         dup = [(vb, k, n_) for (vb, k), n_ in times.items() if n_ > 1]
         if dup and name != "getmany_vs_get":
             self.v("command-issued-twice:%s" % name, "%s sent %r (verb, key, times) in one call" % (name, dup[:3]))
-        involved = [key] if name not in ("get_many", "set_many", "delete_many", "setmanyget", "getmany_vs_get") else allkeys
+        involved = [key] if name not in ("get_many", "set_many", "delete_many", "setmanyget", "getmany_vs_get", "get_many_big") else allkeys
         if name == "set_many_refused":
             involved = []
         if name == "setget_pair":
@@ -520,7 +526,7 @@ def random_sequence(rng, nserv):
         elif c < 0.8:
             seq.append(("adv", rng.choice([1, 1, 10, 11, 11, 50, 100, 101, 201, 0.4, 9.5, 10.2])))
         elif c < 0.92:
-            seq.append(("fail", rng.randrange(nserv), rng.choice(["refused", "timeout", "reset"])))
+            seq.append(("fail", rng.randrange(nserv), rng.choice(["refused", "timeout", "reset", "reset_on_recv"])))
         else:
             seq.append(("ok", rng.randrange(nserv)))
     return seq
@@ -551,12 +557,16 @@ def shard(tier, seed, idx, n):
                     for pool, unix, own in ((False, False, False), (True, False, False), (False, True, False), (False, False, True),
                                             (False, "multi", False)):
                         for bad in range(nserv):
-                            for kind in ("refused", "reset"):
-                                for opn in ("setmanyget_pairs", "setmanyget", "set_many", "setget_pair", "getmany_vs_get", "get"):
+                            for kind in ("refused", "reset", "reset_on_recv"):
+                                for opn in ("setmanyget_pairs", "setmanyget", "set_many", "setget_pair", "getmany_vs_get", "get", "get_many_big"):
                                     work += 1
                                     if work % n != idx:
                                         continue
                                     seq = [("op", opn, 0), ("fail", bad, kind)]
+                                    if kind == "reset_on_recv" and (pool or unix or own or opn in ("setmanyget_pairs", "getmany_vs_get")):
+                                        continue
+                                    if opn == "get_many_big" and (unix or own or kind == "reset"):
+                                        continue
                                     gap = 9.5 if (opn, kind) in (("get", "refused"), ("set_many", "reset")) else 11
                                     for step in range(6):
                                         seq += [("op", opn, bad), ("adv", gap)]
